@@ -197,8 +197,33 @@ class RunClass(stateworld.StateWorld):
         except Exception as e:
             raise Violation("c19.shadow_construct_raised", {"exc": repr(e)})
         self.shadows[op["name"]] = {"gen": gen, "base": name, "base_obj": st, "circ": circ, "refs": refs, "log": log,
-                                    "n": op["nsample"], "got": 0, "kind": kind, "closed": False}
+                                    "n": op["nsample"], "got": 0, "kind": kind, "closed": False, "cs": cs}
         return kind
+
+    def _p_shadow_regen(self, rng):
+        """another snapshots() generator of an EXISTING ClassicalShadow object - while its first
+        generator is suspended at a yield, after it was closed, or after it ran out: runs of one
+        shadow are independent of each other."""
+        if not self.shadows:
+            return None
+        return {"op": "shadow_regen", "src": rng.choice(sorted(self.shadows)), "name": rng.choice(["h0", "h1", "h2"]),
+                "nsample": rng.randrange(1, 5)}
+
+    def _a_shadow_regen(self, op):
+        if op["src"] not in self.shadows:
+            raise Skip()
+        h = self.shadows[op["src"]]
+        if h["base"] not in self.slots or self.slots[h["base"]] is not h["base_obj"]:
+            raise Skip()
+        try:
+            gen = h["cs"].snapshots(op["nsample"])
+        except Exception as e:
+            raise Violation("c19.shadow_construct_raised", {"exc": repr(e), "on": "second generator"})
+        new = dict(h)
+        new.update({"gen": gen, "n": op["nsample"], "got": 0, "closed": False, "interleaved": None})
+        self.shadows[op["name"]] = new
+        self.stats["config:second_generator_of_a_shadow"] += 1
+        return h["kind"]
 
     def _p_shadow_next(self, rng):
         live = [h for h in sorted(self.shadows) if not self.shadows[h]["closed"]]
@@ -272,6 +297,9 @@ class RunClass(stateworld.StateWorld):
             self.stats["interleave"] += 1
             self.probes["snapshot_after_foreground_op:" + h["interleaved"]] += 1
             h["interleaved"] = None
+        if any(o is not h and o["cs"] is h["cs"] and not o["closed"] and 0 < o["got"] for o in self.shadows.values()):
+            self.stats["interleave"] += 1
+            self.probes["snapshot_while_sibling_generator_suspended"] += 1
         self.states.add(stateworld._hash_state(sm))
         self.trans.add(hash(("snap", h["kind"], bm.rank)) & 0xFFFFFFFFFFFF)
         return sut.strs(sut.tableau_rows(snap))
@@ -340,7 +368,9 @@ class RunClass(stateworld.StateWorld):
         h["circ"].take(gate)
         h["refs"].append(ref)
         if compiled:
-            h["stale"] = True
+            for o in self.shadows.values():     # (generators of the same shadow share the circuit)
+                if o["circ"] is h["circ"]:
+                    o["stale"] = True
         self._mark("circuit_extended")
         return "ok"
 
@@ -366,6 +396,8 @@ class RunClass(stateworld.StateWorld):
 def gen_config(rng, tier):
     n = rng.choice([1, 2, 2, 3, 3, 3, 4, 4] + ([5, 6] if tier == "thorough" else [5]))
     ops = {"new": 1.0, "sample": 3.0, "density": 1.0, "shadow_new": 1.5, "shadow_next": 5.0}
+    if rng.random() < 0.6:
+        ops["shadow_regen"] = rng.choice([0.5, 1.0, 2.0])
     for k, w in (("rot", 1.0), ("tmap", 0.7), ("measure", 1.0), ("setr", 0.7), ("copy", 0.3),
                  ("shadow_close", 0.4), ("fg_base", 1.0), ("fg_circ", 0.6), ("gate", 0.5)):
         if rng.random() < 0.7:
